@@ -28,7 +28,7 @@ class C01(Check):
     LEVEL = 'exploration'
     BUDGET = {'quick': 30, 'thorough': 240}
     RULE = ('case = (pipeline P of 1..6 operators from the 29 dual-mode operators - tee_map with 2-4 branches in its three join modes, nested once -, keyed input: 1..8 groups '
-            '(occasionally 50) of 0..40 items each, interleaving shape round-robin / blocks / reversed blocks / random / singletons-first; mode group_by, bare multiplex, or '
+            '(occasionally 50; every 150th case at scale: 300 groups, or groups of 400-800 items with take/batch parameters of 257+) of 0..40 items each, interleaving shape round-robin / blocks / reversed blocks / random / singletons-first; mode group_by, bare multiplex, or '
             'inside roll / split windows). Predicates return bool in the main class; a separate class uses predicates returning truthy non-bool values. '
             'non-trivial = >= 2 groups (or window lifetimes), >= 2 operators and some group emits an item; distinct = hash of the case')
     ASSUMPTIONS = ['preconditions of the statement, applied by the generator and counted: accumulators return the seed\'s type; first / last / mean(reduce) are not applied to an empty group '
@@ -39,7 +39,7 @@ class C01(Check):
                'rxsci/operators/filter.py', 'rxsci/operators/first.py', 'rxsci/operators/last.py', 'rxsci/operators/take.py', 'rxsci/operators/tee_map.py',
                'rxsci/operators/flat_map.py', 'rxsci/operators/do_action.py', 'rxsci/operators/assert_.py', 'rxsci/operators/progress.py',
                'rxsci/operators/distinct_until_changed.py', 'rxsci/data/batch.py', 'rxsci/data/clip.py', 'rxsci/data/fill_none.py', 'rxsci/data/to_list.py', 'rxsci/data/to_array.py']
-    REQUIRED_TAGS = DUAL + ['zip', 'merge', 'combine_latest', 'group', 'multiplex', 'roll', 'split', 'len>=3', 'truthy-predicates', 'many-groups']
+    REQUIRED_TAGS = DUAL + ['zip', 'merge', 'combine_latest', 'group', 'multiplex', 'roll', 'split', 'len>=3', 'truthy-predicates', 'many-groups', 'scale']
     REQUIRED_OBSERVED = ['groups_compared', 'items_compared']
 
     def generate(self, rng, tier, shard, nshards):
@@ -47,13 +47,28 @@ class C01(Check):
         modes = ['group', 'group', 'group', 'multiplex', 'roll', 'split']
         for k in range(n):
             truthy = (k % 10 == 9)
-            opts = gen.GenOpts(dual_only=True, max_depth=2, truthy_predicates=truthy, tee_weight=3, no_streaming_mutation=True)
+            scale = (k % 150 == 75)
+            opts = gen.GenOpts(dual_only=True, max_depth=2 if not scale else 1, truthy_predicates=truthy, tee_weight=3, no_streaming_mutation=True,
+                               scale=scale, exclude_ops=('fvariance', 'fstddev') if scale else ())
             prog, _ = gen.gen_pipeline(rng, 'i', rng.randint(1, 6), opts)
+            if scale:
+                # make sure a size-sensitive operator with a parameter beyond the small-int cache is in the pipeline
+                big = rng.choice([['take', 300], ['take', 257], ['batch', 257], ['batch', 300], ['take', 1000]])
+                head, _ = gen.gen_pipeline(rng, 'i', rng.randint(0, 1), gen.GenOpts(dual_only=True, max_depth=0, only_ops={'map', 'filter', 'identity', 'clip'}))
+                head = [nd for nd in head if nd[0] != 'map' or nd[1].split(':')[0] in ('add', 'mod', 'mul', 'neg')]
+                tail, _ = gen.gen_pipeline(rng, 'x' if big[0] == 'batch' else 'i', rng.randint(0, 2), opts)
+                prog = head + [big] + tail
             mode = modes[k % len(modes)]
             ng = rng.choice([1, 2, 2, 3, 4, 8]) if k % 40 else 50
             if mode != 'group':
                 ng = 1
             seqs = [[rng.randint(0, 12) for _ in range(rng.choice([0, 1, 2, 4, 8, 15, 40]))] for _ in range(ng)]
+            if scale:
+                # sizes beyond the small-int cache: long groups (take/batch 257+), or 300 groups (key indices > 255)
+                if (k // 150) % 2 and mode == 'group':
+                    seqs = [[rng.randint(0, 12) for _ in range(rng.choice([1, 2, 3]))] for _ in range(300)]
+                else:
+                    seqs = [[rng.randint(0, 500) for _ in range(rng.choice([400, 800]))] for _ in range(min(ng, 2))]
             case = {'prog': prog, 'mode': mode, 'seqs': seqs, 'shape': rng.choice(gen.INTERLEAVINGS), 'iseed': rng.randrange(1 << 30),
                     'truthy': truthy}
             if mode == 'roll':
@@ -97,12 +112,14 @@ class C01(Check):
             out.tags.append('truthy-predicates')
         if len(seqs) >= 20:
             out.tags.append('many-groups')
+        if len(seqs) >= 257 or any(len(x) >= 300 for x in seqs):
+            out.tags.append('scale')
         mech = None
         if case.get('truthy') and any(nd[0] == 'filter' and nd[1].startswith('modtruthy') for _, nd in progs.walk(prog)):
             mech = 'filter-mux-truthy-predicate'
 
         if mode == 'group':
-            M = 64
+            M = 64 if len(seqs) <= 64 else 512
             r = random.Random(case['iseed'])
             pairs = gen.interleave_keys(r, seqs, case['shape'])
             items = [v * M + g for g, v in pairs]
